@@ -53,7 +53,7 @@ def c10(tier):
     pacc = [c for c in pcases if c["gen"]["ok"]]
     pd = props_lalr.dump_dirs(sc, [c["gen"]["dir"] for c in pacc])
     # ---- lexer specifications
-    lcs = json.loads(json.dumps(list(lgrams.CURATED_GREEDY) + list(lgrams.CURATED_MODES) + lgrams.ng_cases()[::7] + lgrams.ng_cases()[-4:]
+    lcs = json.loads(json.dumps(list(lgrams.CURATED_GREEDY) + list(lgrams.CURATED_MODES) + lgrams.ng_cases()[::7] + lgrams.ng_cases()[-8:]
                                 + lgrams.nullable_cases() + lgrams.random_specs(seed() + 10, 30 if quick else 300)
                                 + lgrams.range_triple_specs(random.Random(seed() + 23), 30 if quick else 400)
                                 + (lgrams.card_nesting_specs() if not quick else lgrams.card_nesting_specs()[(seed() + 1) % 2::2])
